@@ -31,4 +31,80 @@ def runWith {σ ι ο} (step : σ → ι → σ × ο) (s : σ) : List ι → σ
     let (s'', os) := runWith step s' is
     (s'', o :: os)
 
+
+/-! ### several callers of one method
+
+The real circuit may call `read`/`write`/`peek` from several transactions.  Calls of an
+exclusive method conflict: the (eager) scheduler lets exactly one of the requesting callers run,
+the first in a static priority order `order` (read off the real `TransactionManager` by the
+harness).  A nonexclusive method (`peek`) serves every caller. -/
+
+/-- the caller that is granted: first in `order` among the attempting ones -/
+def winner (order : List Nat) (att : List Bool) : Option Nat :=
+  order.find? (fun k => att.getD k false)
+
+/-- attempts of one cycle, per caller -/
+structure MIn where
+  ws : List (Option Nat)
+  rs : List Bool
+  ps : List Bool
+  c : Bool
+deriving Repr, DecidableEq
+
+/-- the single-port attempt the component sees, and who was granted -/
+structure Eff where
+  w : Option Nat
+  r : Bool
+  p : Bool
+  c : Bool
+  gw : Option Nat
+  gr : Option Nat
+deriving Repr, DecidableEq
+
+def eff (ow or : List Nat) (i : MIn) : Eff :=
+  let gw := winner ow (i.ws.map Option.isSome)
+  let gr := winner or i.rs
+  { w := gw.bind (fun k => i.ws.getD k none), r := gr.isSome, p := i.ps.any id, c := i.c, gw := gw, gr := gr }
+
+/-- outcome of an exclusive method per caller: only the granted caller sees it -/
+def onlyTo {α} (n : Nat) (g : Option Nat) (res : Option α) : List (Option α) :=
+  (List.range n).map (fun k => if g = some k then res else none)
+
+/-- outcome of a nonexclusive method per caller: every attempting caller sees it -/
+def toAll {α} (att : List Bool) (res : Option α) : List (Option α) :=
+  att.map (fun a => if a then res else none)
+
+namespace MProto
+open TxV.Proto
+
+def optList (s : String) : Option (List (Option Nat)) :=
+  (s.splitOn ",").mapM (fun t => if t == "-" then some none else t.toNat?.map some)
+
+def boolList (s : String) : Option (List Bool) :=
+  (s.splitOn ",").mapM (fun t => if t == "1" then some true else if t == "0" then some false else none)
+
+def showOpts (l : List (Option Nat)) : String := ",".intercalate (l.map showOpt)
+def showBools (l : List Bool) : String := ",".intercalate (l.map showBool)
+
+/-- `mcyc w=5,- r=1,1 p=0,1 c=0` (peek/clear optional) -/
+def parseMIn (t : List String) (withPC : Bool) : Option MIn := do
+  let ws ← (kv? t "w").bind optList
+  let rs ← (kv? t "r").bind boolList
+  if withPC then
+    let ps ← (kv? t "p").bind boolList
+    let c ← nat? t "c"
+    if ws.length == rs.length && rs.length == ps.length then some ⟨ws, rs, ps, c == 1⟩ else none
+  else
+    if ws.length == rs.length then some ⟨ws, rs, rs.map (fun _ => false), false⟩ else none
+
+/-- `w=1,0 r=-,42 p=-,42 c=0` from the single-port outcome -/
+def showM (i : MIn) (e : Eff) (wr rd pk : Option Nat) (clr : Bool) (withPC : Bool) : String :=
+  let n := i.ws.length
+  let w := (onlyTo n e.gw wr).map Option.isSome
+  let r := onlyTo n e.gr rd
+  if withPC then s!"w={showBools w} r={showOpts r} p={showOpts (toAll i.ps pk)} c={showBool clr}"
+  else s!"w={showBools w} r={showOpts r}"
+
+end MProto
+
 end TxV.QueueUtil
